@@ -702,9 +702,22 @@ def hidden_static_rule(prog, chk, unit_suffix, rule, floor_sites, only=None):
         need = dict((k, [("reads %s" % statics[S]["n"], v)]) for k, v in direct.items())
         work = list(direct)
         undominated = {}     # (K name, site id) -> (K, site, t)
+        reader_cls = {}       # function name -> classes of the direct readers reachable from it
+        for nm in direct:
+            reader_cls[nm] = {byname[nm][0].cls} if byname.get(nm) else {None}
         while work:
             t = work.pop()
             for (k, site) in callers.get(t, []):
+                # a member call on `this` dispatches inside the hierarchy of the caller's class: a chain that ends in the
+                # override of an unrelated sibling class (VMap -> AVario::_evaluate.. -> Vario::_setResult) is not feasible
+                if k.cls and site["k"] in ("MCall", "PMCall"):
+                    hier = set([k.cls] + prog.bases(k.cls) + prog.derived(k.cls))
+                    rc = {c for c in reader_cls.get(t, {None}) if c is None or c in hier}
+                    if not rc:
+                        continue
+                else:
+                    rc = set(reader_cls.get(t, {None}))
+                reader_cls.setdefault(k.name, set()).update(rc)
                 g = CFG(k)
                 if g.dominated_by(site, is_assign_of(S)):
                     continue
